@@ -248,7 +248,7 @@ def run_worker(job, r):
             rc, sig, q = None, None, None
             for step in range(12):
                 cmd('clock +1')      # requests are throttled per round (1 s): let virtual time pass
-                q = cmd('async_run 0')
+                q = cmd('async_run 0 keep=5')
                 # deliver whatever the server has to say
                 for eid, info in list(sess.http_async.items()):
                     if not info['done']:
@@ -286,6 +286,63 @@ def run_worker(job, r):
                 r.viol('async:%s:foreign-handle' % transport, 'handle with tag %s returned for request %s' % (q.get('tag'), tag), '')
             rc = 0 if (st == 3 and q.get('sigrc') == '0') else (int(q.get('herr', 0)) or int(q.get('sigrc', 1)) or 1)
             sig = q.get('sig') if rc == 0 else None
+            if st == 5 and (q.get('errsigrc') == '0' or q.get('errresp')):
+                r.viol('async:%s:error-state-handle-offers-signature' % transport, 'request ended in the error state (behaviour %s) but the handle hands out a signature / response: errsigrc=%s errresp=%s' % (srv.behaviour, q.get('errsigrc'), q.get('errresp')), '')
+            if rc == 0 and srv.behaviour in HONEST and rng.random() < 0.3:
+                # the same handle OBJECT is added once more (supported by the service): the second round stands for itself - when it fails,
+                # the handle must not offer what the first round produced
+                first = (srv.behaviour, srv.expected)
+                b2 = rng.choice(['status-nonzero', 'error-pdu', 'bad-mac', 'prev-id', 'no-chains', 'other-hash', 'honest', 'honest'])
+                srv.behaviour = b2
+                for i2 in sess.tcp.values():
+                    if isinstance(i2, dict):
+                        i2['answered'] = False
+                a2 = cmd('async_readd 0 5')
+                q2 = None
+                if a2.rc == 0:
+                    for step in range(14):
+                        cmd('clock +%d' % (1 if step < 6 else 20))
+                        q2 = cmd('async_run 0 keep=5')
+                        for eid, info in list(sess.http_async.items()):
+                            if not info['done']:
+                                info['done'] = True
+                                code, cc, body = srv.reply(info['body'])
+                                cmd('http_complete %d %d %d %s %s' % (eid, code, cc, kexec.hx(body), chunks(rng, len(body))))
+                        for fd, info in list(sess.tcp.items()):
+                            if isinstance(fd, int) and info['open'] and info['sent'] and not info.get('answered'):
+                                try:
+                                    S.parse_request(bytes(info['sent']), 'aggr', version)
+                                except S.BadRequest:
+                                    continue
+                                info['answered'] = True
+                                code, cc, body = srv.reply(bytes(info['sent']))
+                                info['sent'] = bytearray()
+                                if code != 200 or cc != 0 or not body:
+                                    cmd('net_eof %d' % fd)
+                                else:
+                                    cmd('net_push %d %s' % (fd, body.hex()))
+                        if q2.get('handle') == '1' and q2.get('state') == '4':
+                            q2 = None
+                            continue
+                        if q2.get('handle') == '1':
+                            break
+                    r.count('handles_added_a_second_time')
+                    b2 = srv.behaviour
+                    if q2 is None or q2.get('handle') != '1':
+                        r.viol('async:%s:re-added-handle-never-returned' % transport, 'handle added a second time (behaviour %s) was not handed back' % b2, '')
+                    elif b2 in HONEST:
+                        if not (q2.get('state') == '3' and q2.get('sigrc') == '0' and srv.expected is not None and q2.get('sig') == srv.expected.enc().hex()):
+                            r.viol('async:%s:re-added-handle:honest-second-round-not-delivered' % transport, 'second round of a re-added handle with an honest reply: state=%s sigrc=%s, signature %s the one issued in the second round' % (q2.get('state'), q2.get('sigrc'), 'is' if srv.expected is not None and q2.get('sig') == srv.expected.enc().hex() else 'is not'), '')
+                    else:
+                        if q2.get('state') == '3' and q2.get('sigrc') == '0' or q2.get('errsigrc') == '0' or q2.get('errresp'):
+                            r.viol('async:%s:re-added-handle:failed-second-round-offers-signature' % transport, 'handle added a second time, second round %s: state=%s sigrc=%s errsigrc=%s errresp=%s - a signature / response is handed out although the second request got no valid reply' % (b2, q2.get('state'), q2.get('sigrc'), q2.get('errsigrc'), q2.get('errresp')), '')
+                        else:
+                            r.count('failed_second_rounds_without_signature')
+                    if b2 not in HONEST and transport == 'async-tcp':
+                        for fd in [f for f, i2 in sess.tcp.items() if isinstance(f, int) and i2['open']]:
+                            cmd('net_eof %d' % fd)
+                        cmd('async_run 0')
+                srv.behaviour, srv.expected = first
             info_reset = [i2.update(answered=False) for i2 in sess.tcp.values() if isinstance(i2, dict)]
             if srv.behaviour not in HONEST and transport == 'async-tcp':
                 # garbage may be left in the byte stream: a server closes such a connection, the next request starts on a fresh one
